@@ -27,6 +27,10 @@ def _task(t):
         else:
             raise ValueError(kind)
         return (kind, arg, res.order, res.d, res.kind, None, time.time() - t0)
+    except K.Unsupported as ex:   # the kernel's current source is outside the engine's subset: out of reach, undecided
+        return (kind, arg, ["%s%s.out_of_reach" % (arg if kind == "simple" else "read_bitpacked", "" if kind == "simple" else list(arg))],
+                {"%s%s.out_of_reach" % (arg if kind == "simple" else "read_bitpacked", "" if kind == "simple" else list(arg)):
+                 [("unknown", None, 0.0, "engine", str(ex))]}, {}, None, time.time() - t0)
     except Exception as ex:       # engine failure inside one kernel: reported as such by the caller
         import traceback
         return (kind, arg, [], {}, {}, traceback.format_exc()[-1500:], time.time() - t0)
